@@ -112,6 +112,127 @@ fn check_footprint_measured(case: &StreamCase, measured: &mut dyn FnMut(usize, u
     })
 }
 
+/// A long stream of delimited records read through one StreamReader: the
+/// reader recycles its iovec with `clear()`, so its footprint must not grow.
+#[derive(Clone, Debug, PartialEq, Eq, Hash, serde::Serialize, serde::Deserialize)]
+pub struct ReaderFootprintCase {
+    pub kib: u32,
+    /// Relative weights of the record kinds: empty, one byte, invalid first byte,
+    /// 300 bytes, 5000 bytes, 70000 bytes, extra delimiter.
+    pub weights: [u8; 7],
+    pub seed: u32,
+    /// Index into [4096, 65536, 262144, default].
+    pub block: u8,
+}
+
+fn reader_stream(case: &ReaderFootprintCase) -> Vec<u8> {
+    use crate::refimpl::hcobs_ref;
+    let total = case.kib as usize * 1024;
+    let enc = |p: &[u8]| hcobs_ref::encode(p, hcobs_ref::LIMIT_FIRST, hcobs_ref::LIMIT_LATER);
+    let kinds: [Vec<u8>; 7] = [
+        enc(&[]),
+        enc(b"x"),
+        vec![0xFF, 0x41, 0x42],
+        enc(&vec![0x33; 300]),
+        enc(&(0..5000u32).map(|i| (i % 251) as u8).collect::<Vec<u8>>()),
+        enc(&vec![0x44; 70_000]),
+        vec![],
+    ];
+    let sum: u32 = case.weights.iter().map(|w| *w as u32).sum::<u32>().max(1);
+    let mut st = case.seed as u64 ^ 0x1234_5678_9abc;
+    let mut out = Vec::with_capacity(total + 80_000);
+    while out.len() < total {
+        st = st.wrapping_mul(6364136223846793005).wrapping_add(1442695040888963407);
+        let mut pick = ((st >> 33) as u32) % sum;
+        let mut k = 0;
+        for (i, w) in case.weights.iter().enumerate() {
+            if pick < *w as u32 {
+                k = i;
+                break;
+            }
+            pick -= *w as u32;
+        }
+        out.extend_from_slice(&kinds[k]);
+        out.extend_from_slice(&[0xFE, 0xFD]);
+    }
+    out
+}
+
+pub fn check_reader_footprint(case: &ReaderFootprintCase) -> CaseResult {
+    leak_checked("StreamReader over a long stream", || {
+        let stream = reader_stream(case);
+        let block = [Some(4096usize), Some(65_536), Some(262_144), None][case.block as usize % 4];
+        let baseline = ByteArena::num_live_bytes();
+        let mut input = &stream[..];
+        let mut reader = hcobs::StreamReader::new();
+        let judge = hcobs::StreamReader::chunk_judge(usize::MAX, None);
+        let (mut first, mut second) = (0usize, 0usize);
+        let mut records = 0u64;
+        let mut empty_records = 0u64;
+        loop {
+            let r = reader.next_record_bytes(&mut input, &judge, block).map_err(|e| Fail::new("reader:io-error", e.to_string()))?;
+            let Some((iovec, range)) = r else { break };
+            records += 1;
+            if iovec.total_size() == 0 {
+                empty_records += 1;
+            }
+            let live = ByteArena::num_live_bytes().saturating_sub(baseline);
+            if (range.end as usize) <= stream.len() / 2 {
+                first = first.max(live);
+            } else {
+                second = second.max(live);
+            }
+        }
+        let bound = 4 * MIB + 2 * block.unwrap_or(hcobs::DEFAULT_BLOCK_SIZE);
+        let peak = first.max(second);
+        if peak > bound {
+            return Err(Fail::new(
+                "footprint:reader-bound",
+                format!("StreamReader over {} KiB ({records} records, {empty_records} empty, block {block:?}): {peak} live arena bytes at the peak, bound {bound}", case.kib),
+            ));
+        }
+        if second > first + MIB {
+            return Err(Fail::new(
+                "footprint:reader-grows",
+                format!("StreamReader over {} KiB ({records} records, block {block:?}): peak live bytes grew from {first} (first half) to {second} (second half)", case.kib),
+            ));
+        }
+        Ok(Outcome::new(case.kib >= 8 * 1024)
+            .label_if(empty_records * 2 > records, "mostly_empty_records")
+            .label_if(case.weights[2] as u32 * 3 > case.weights.iter().map(|w| *w as u32).sum::<u32>(), "many_invalid_records")
+            .label_if(case.weights[5] > 0, "multi_chunk_records"))
+    })
+}
+
+fn reader_footprint_case(min_kib: u32, max_kib: u32) -> impl Strategy<Value = ReaderFootprintCase> {
+    (
+        min_kib..=max_kib,
+        prop_oneof![
+            // A long run of one single kind of record ...
+            3 => (0usize..7).prop_map(|k| {
+                let mut w = [0u8; 7];
+                w[k] = 1;
+                w
+            }),
+            // ... or only records that decode to nothing (empty, invalid, bare delimiters) ...
+            2 => (1u8..9, 0u8..9, 0u8..9).prop_map(|(a, b, c)| [a, 0, b, 0, 0, 0, c]),
+            // ... or one kind dominating ...
+            2 => (0usize..7, any::<[u8; 7]>()).prop_map(|(k, mut w)| {
+                for x in w.iter_mut() {
+                    *x %= 3;
+                }
+                w[k] = 200;
+                w
+            }),
+            // ... or an arbitrary mixture.
+            2 => any::<[u8; 7]>(),
+        ],
+        any::<u32>(),
+        0u8..4,
+    )
+        .prop_map(|(kib, weights, seed, block)| ReaderFootprintCase { kib, weights, seed, block })
+}
+
 fn footprint_case(min_kib: u32, max_kib: u32) -> impl Strategy<Value = StreamCase> {
     streaming::stream_case(min_kib, max_kib).prop_map(|mut c| {
         // The consumer keeps draining everything that is consumable.
@@ -154,6 +275,10 @@ pub fn run(ctx: &Ctx, rep: &mut Report) {
     rep.sub_add("footprint", "bytes_streamed", total.get());
     rep.sub_set("footprint", "max_peak_live_bytes_per_codec_seen", json!(peak.get()));
     rep.sub_set("footprint", "max_live_chunks_seen", json!(chunks.get()));
+
+    let (lo, hi, n) = ctx.tier.pick((8 * 1024, 24 * 1024, 24), (16 * 1024, 256 * 1024, 200));
+    let cases = ctx.share(n);
+    engine::drive(ctx, rep, "footprint:stream-reader", reader_footprint_case(lo, hi), cases, check_reader_footprint);
     rep.sub_set("footprint", "bound_per_codec_bytes", json!(4 * MIB));
 }
 
@@ -163,6 +288,7 @@ fn replay(_ctx: &Ctx, group: &str, case: &Value) -> CaseResult {
         "leak:stream-reader" => check_reader(&parse_case::<c06::Case>(case)?),
         "leak:stream-chunker" => check_chunker(&parse_case::<c08::Case>(case)?),
         "footprint" => check_footprint(&parse_case::<StreamCase>(case)?),
+        "footprint:stream-reader" => check_reader_footprint(&parse_case::<ReaderFootprintCase>(case)?),
         _ => check_history(&parse_case::<History>(case)?),
     }
 }
@@ -170,7 +296,7 @@ fn replay(_ctx: &Ctx, group: &str, case: &Value) -> CaseResult {
 pub fn def() -> PropDef {
     PropDef {
         id: "C10",
-        rule: "Single-threaded worker processes (the counters are process-wide). leak:* groups: a generated history (C05's OwningIovec / AnchoredSlice state machine with clones, takes, arena swaps, held anchors; C01's Encoder/Decoder feeding and draining plans; C06's StreamReader and C08's StreamChunker runs) is executed, every object is dropped in a generated order, and (num_live_chunks, num_live_bytes) must equal their values before the case. footprint: streams of 16..40 MiB (32..512 MiB in thorough) of four shapes through Encoder, Decoder or an Encoder->Decoder pipeline, fed in phases of pieces of 1 B..512 KiB with all input methods, the consumer draining everything consumable after every call (or every 2nd / 3rd call, with the bound raised by what may be left unconsumed); live arena bytes are sampled after every call: the peak must stay below 4 MiB per codec and the peak over the second half of the stream must not exceed the peak over the first half by more than one chunk (1 MiB) - a leak of one chunk per arena turnover fails on these lengths. Non-trivial: (leak) a history with a clone, a taken / swapped arena, or an anchor left behind a partially consumed slice; (footprint) stream >= 16 MiB. Distinct: hash of the serialised case.",
+        rule: "Single-threaded worker processes (the counters are process-wide). leak:* groups: a generated history (C05's OwningIovec / AnchoredSlice state machine with clones, takes, arena swaps, held anchors; C01's Encoder/Decoder feeding and draining plans; C06's StreamReader and C08's StreamChunker runs) is executed, every object is dropped in a generated order, and (num_live_chunks, num_live_bytes) must equal their values before the case. footprint:stream-reader: streams of 8..24 MiB (16..256 MiB in thorough) of delimited records (empty, one byte, invalid at the first byte, 300 B, 5000 B, 70000 B, extra delimiters; one kind dominating or an arbitrary mixture) read record by record through one StreamReader with block sizes 4 KiB / 64 KiB / 256 KiB / default, live bytes sampled after every record against 4 MiB + 2 blocks and first-half / second-half growth. footprint: streams of 16..40 MiB (32..512 MiB in thorough) of four shapes through Encoder, Decoder or an Encoder->Decoder pipeline, fed in phases of pieces of 1 B..512 KiB with all input methods, the consumer draining everything consumable after every call (or every 2nd / 3rd call, with the bound raised by what may be left unconsumed); live arena bytes are sampled after every call: the peak must stay below 4 MiB per codec and the peak over the second half of the stream must not exceed the peak over the first half by more than one chunk (1 MiB) - a leak of one chunk per arena turnover fails on these lengths. Non-trivial: (leak) a history with a clone, a taken / swapped arena, or an anchor left behind a partially consumed slice; (footprint) stream >= 16 MiB. Distinct: hash of the serialised case.",
         assumptions: &["arena requests <= 512 KiB in the footprint runs", "the footprint bound is a constant with margin (probed peaks: ~2 MiB per codec), not a minimum"],
         exhaustive_note: None,
         shards: |t: Tier| t.pick(8, 16),
